@@ -405,7 +405,7 @@ static void read_macro_definition(Token **rest, Token *tok) {
   char *name = strndup(tok->loc, tok->len);
   tok = tok->next;
 
-  if (!tok->has_space && equal(tok, "(")) {
+  if (!tok->has_space && !tok->at_bol && equal(tok, "(")) {
     // Function-like macro
     char *va_args_name = NULL;
     MacroParam *params = read_macro_params(&tok, tok->next, &va_args_name);
@@ -537,7 +537,8 @@ static Token *stringize(Token *hash, Token *arg) {
   char *p = buf;
   *p++ = '"';
   for (Token *t = arg; t->kind != TK_EOF; t = t->next) {
-    if (t != arg && t->has_space)
+    // A new-line inside an invocation is white space too.
+    if (t != arg && (t->has_space || t->at_bol))
       *p++ = ' ';
     char last = t->len ? t->loc[t->len - 1] : 0;
     bool is_literal = (last == '"' || last == '\'');
@@ -561,6 +562,10 @@ static Token *paste(Token *lhs, Token *rhs) {
   Token *tok = tokenize(new_file(lhs->file->name, lhs->file->file_no, buf));
   if (tok->kind == TK_EOF || tok->next->kind != TK_EOF)
     error_tok(lhs, "pasting forms '%s', an invalid token", buf);
+
+  // The new token stands where the left operand stood.
+  tok->at_bol = lhs->at_bol;
+  tok->has_space = lhs->has_space;
   return tok;
 }
 
@@ -572,6 +577,17 @@ static bool has_varargs(MacroArg *args) {
 }
 
 // Replace func-like macro parameters with given arguments.
+// Copies a token list up to its EOF token, which is shared.
+static Token *copy_token_list(Token *tok) {
+  Token head = {};
+  Token *cur = &head;
+
+  for (; tok->kind != TK_EOF; tok = tok->next)
+    cur = cur->next = copy_token(tok);
+  cur->next = tok;
+  return head.next;
+}
+
 static Token *subst(Token *tok, MacroArg *args) {
   Token head = {};
   Token *cur = &head;
@@ -609,6 +625,14 @@ static Token *subst(Token *tok, MacroArg *args) {
 
       if (tok->next->kind == TK_EOF)
         error_tok(tok, "'##' cannot appear at end of macro expansion");
+
+      // The right operand may be a stringized parameter: `L ## #x`.
+      if (equal(tok->next, "#") && find_arg(args, tok->next->next)) {
+        MacroArg *arg = find_arg(args, tok->next->next);
+        *cur = *paste(cur, stringize(tok->next, arg->tok));
+        tok = tok->next->next->next;
+        continue;
+      }
 
       MacroArg *arg = find_arg(args, tok->next);
       if (arg) {
@@ -654,8 +678,15 @@ static Token *subst(Token *tok, MacroArg *args) {
         continue;
       }
 
-      for (Token *t = arg->tok; t->kind != TK_EOF; t = t->next)
+      for (Token *t = arg->tok; t->kind != TK_EOF; t = t->next) {
         cur = cur->next = copy_token(t);
+
+        // The argument stands where the parameter stood.
+        if (t == arg->tok) {
+          cur->at_bol = tok->at_bol;
+          cur->has_space = tok->has_space;
+        }
+      }
       tok = tok->next;
       continue;
     }
@@ -674,7 +705,7 @@ static Token *subst(Token *tok, MacroArg *args) {
     // Handle a macro token. Macro arguments are completely macro-expanded
     // before they are substituted into a macro body.
     if (arg) {
-      Token *t = preprocess2(arg->tok);
+      Token *t = preprocess2(copy_token_list(arg->tok));
       t->at_bol = tok->at_bol;
       t->has_space = tok->has_space;
       for (; t->kind != TK_EOF; t = t->next)
